@@ -59,7 +59,7 @@ def plan(tier, seed):
     cfgs.append(dict(kind="port", rate=8, mode="bytes", qlimit=4, N=n - 1, gaps=["S", 1, 2], sizes=[1, 2, 3], order=0, mailbox=1))
     cfgs.append(dict(kind="port", rate=0, mode="pkts", qlimit=2, N=n - 1, gaps=["S", 1, 2], sizes=[1, 2], order=0, mailbox=1))
     # every configuration once more with long fixed workloads (state that only breaks after hundreds of packets)
-    nlong = explore.add_long(cfgs, 300 if quick else 1000)
+    nlong = explore.add_long(cfgs, 300 if quick else 1000, burst=1100)
     ndebug = explore.add_debug_variants(cfgs)      # the same with every element constructed with debug=True
     return {"cfgs": cfgs, "budget": None,
             "bound": ("%d long fixed workloads (periodic arrival patterns); %d configurations repeated with debug=True; " % (nlong, ndebug)) + ("Port: N<=%d, rates {0,8,16}, qlimit None/bytes{0,2,3,4,6}/packets{0,1,2,3}, monitors in/excl; "
